@@ -116,3 +116,13 @@ Example C11_family_example_lists :
                             FIdents [idn "r"%string 45]];
       DBad false 50 73 st2]%Z, 1%nat).
 Proof. vm_compute. reflexivity. Qed.
+
+(* parseCommaSeparatedList is local for ANY local item parser: two inputs that share a part (of length m) and continue with terminator-headed
+   rests give the same list and stop at the same place of the shared part, provided each item parser does so and consumes at least one shared
+   token -- whatever the amounts of fuel, which only have to exceed the shared length ([reln] / [rreln]: Parse/StmtProofs.v) *)
+Theorem C11_comma_separated_lists_are_local : forall (p k1 k2 : toks), theaded k1 -> theaded k2 ->
+  forall (A : Type) (item : toks -> ExprModel.res (A * toks)),
+    (forall m ts1 ts2, reln p k1 k2 m ts1 ts2 -> rreln p k1 k2 1 m (item ts1) (item ts2)) ->
+    forall m ts1 ts2, reln p k1 k2 m ts1 ts2 -> rreln p k1 k2 1 m (comma_list item ts1) (comma_list item ts2).
+Proof. intros p k1 k2 T1 T2 A item H. exact (comma_list_reln p k1 k2 T1 T2 item H). Qed.
+Print Assumptions C11_comma_separated_lists_are_local.
